@@ -454,6 +454,16 @@ class Inputs:
                         if not self.sym and w["domain"] == "dense":
                             sub = np.ascontiguousarray(sub)
                         self.blocks[(i, j, *o)] = sub
+        # sparse inputs are handed over in the caller's favourite formats (the harness itself works on CSR)
+        if not self.sym and w["domain"] == "sparse" and w.get("sparse_fmts") and w["fmt"] != "implicit":
+            from scipy import sparse
+
+            conv = {"csr": sparse.csr_array, "csc": sparse.csc_array, "coo": sparse.coo_array, "dia": sparse.dia_array}
+            kinds = w["sparse_fmts"]
+            if w["fmt"] == "blocked":
+                self.blocks = {k: conv[kinds[n % len(kinds)]](v) for n, (k, v) in enumerate(self.blocks.items())}
+            elif w["fmt"] != "nested":
+                self.full = {o: conv[kinds[n % len(kinds)]](v) for n, (o, v) in enumerate(self.full.items())}
         # masks for selective diagonalisation
         self.masks = {}
         for c, comp in enumerate(w["comps"]):
@@ -670,11 +680,15 @@ class Sim:
             return self._build_tracer(c, spec)
         kw = dict(self.kw)
         kw["hermitian"] = spec["herm"]
+        if self.w.get("atol"):
+            kw["atol"] = self.w["atol"]
         fd = spec.get("fd")
         if isinstance(fd, dict) and "sqmask" in fd:
             kw["fully_diagonalize"] = {b: self.inp.sq_masks[fd["sqmask"]].copy() for b in fd["blocks"]}
         elif isinstance(fd, dict):
             kw["fully_diagonalize"] = dict(self.inp.masks[c])
+            if self.inp.nb == 1 and fd.get("bare"):
+                kw["fully_diagonalize"] = self.inp.masks[c][0]  # one block: the boolean array may be given without a dict
         elif fd:
             kw["fully_diagonalize"] = tuple(fd)
         if self.w["fmt"] == "implicit" and spec.get("kpm"):
@@ -1472,6 +1486,8 @@ class GraphProp:
              "symbols": r.random() < 0.2, "dimnames": r.random() < 0.2, "interleave": r.random() < 0.4,
              "zero_level": bool(nb >= 2 and domain in ("dense", "sparse") and r.random() < 0.12),
              "p_sparse": r.choice([0.0, 0.3, 0.5, 0.7]) if domain == "sparse" else 0.0,
+             "sparse_fmts": r.choice([["csr"], ["csr"], ["csc"], ["coo", "csr"], ["csr", "dia", "csc"]]) if domain == "sparse" else None,
+             "atol": r.choice([None, None, None, 1e-10, 1e-14]),
              "view_input": r.random() < 0.15, "sectors": bool(nb >= 3 and domain in ("dense", "sparse") and r.random() < 0.25),
              "cap": profile.get("max_total", {1: 4, 2: 3, 3: 2})[npert] if domain != "sym" else 3}
         if fmt == "scalar_vecs":
@@ -1488,7 +1504,7 @@ class GraphProp:
                 spec["fd"] = sorted(r.sample(range(nb), r.randint(1, nb)))
             elif x < 0.45 and domain != "sym":
                 blocks = sorted(r.sample(range(nb), r.randint(1, nb)))
-                spec["fd"] = {"blocks": blocks, "mseed": r.randrange(1 << 30)}
+                spec["fd"] = {"blocks": blocks, "mseed": r.randrange(1 << 30), "bare": r.random() < 0.5}
             if spec["fd"] is None and domain != "sym":
                 y = r.random()
                 if y < 0.15 and nb > 1:
